@@ -312,8 +312,30 @@ pub fn run_ladders(families: &[usize], max_depth: usize, acc: &mut Acc) {
                     acc.max("max_depth_parser_survived", (d / 2) as u64);
                     break;
                 }
+                // a generated nesting that is not well-formed must be refused (and only then): decided on a shallow instance of
+                // the same ladder, in-process
+                let shallow = if fam >= 1000 { gen::nest_mixed(fam as u64, d.min(32)) } else { gen::nest_pure(fam, d.min(32)) };
+                let erroneous = typst_syntax::parse(&shallow).erroneous();
                 for (w, t) in [(80usize, 2usize), (0, 2), (1 << 40, 8)] {
                     let out = run_worker("format", fam, d, w, t);
+                    if erroneous {
+                        acc.evaluations += 1;
+                        acc.count("erroneous_ladder_points", 1);
+                        match out {
+                            WorkerOutcome::Refused => acc.held += 1,
+                            WorkerOutcome::Ok { .. } => acc.violations.push(Violation {
+                                property: "C05".into(),
+                                input: shallow.clone(),
+                                cfg: Some(Cfg::new(w, t, false)),
+                                origin: format!("G-NEST family {} depth {}", fam, d),
+                                oracle: "depth-ladder".into(),
+                                detail: format!("nesting of depth {} has syntax errors but was not refused", d),
+                                extra: json!({"family": fam, "depth": d}),
+                            }),
+                            _ => acc.inconclusive("erroneous-ladder-point-died"),
+                        }
+                        continue;
+                    }
                     acc.evaluations += 1;
                     acc.count("isolated_worker_runs", 1);
                     acc.max("max_depth_formatted", d as u64);
@@ -449,4 +471,141 @@ pub fn dies_in_isolation(text: &str, cfg: Cfg) -> Option<(bool, String)> {
         Some(0) => Some((false, "returned".into())),
         _ => None,
     }
+}
+
+
+// ------------------------------------------------------------------------------------------------
+// The "checked" slice: the same observations in a build with integer-overflow checks and debug assertions on
+// (`--profile checked`). Arithmetic on configuration values that wraps silently in a release build panics here — and in
+// every debug build of an application that embeds the library.
+
+/// `tyv checked-slice <seed> <quick|thorough>` (run from the `checked` profile binary): prints one `CHECKED-VIOLATION <json>` line
+/// per violating (input, cfg) and a final `CHECKED-SLICE …` line.
+pub fn checked_slice_main(seed: u64, thorough: bool) -> i32 {
+    use crate::pools::ListPool;
+    use crate::workload::{self, CfgRule, Part, Std, Tier};
+    let std = Std::load();
+    let n = if thorough { 40_000 } else { 4_000 };
+    let parts = vec![
+        Part::new(std.base_list(), usize::MAX, usize::MAX, CfgRule::Fixed(vec![])),
+        Part::new(ListPool { name: "corpus(hostile)".into(), cases: crate::corpus::hostile() }, usize::MAX, usize::MAX, CfgRule::Fixed(vec![])),
+        Part::new(random_pool(), n, n, CfgRule::Fixed(vec![])),
+        Part::new(crate::pools::GenPool { name: "G-NEST".into(), n: gen::GEN_N, f: Box::new(gen::gen_nest) }, n / 4, n / 4, CfgRule::Fixed(vec![])),
+        Part::new(crate::pools::GenPool { name: "G-TABLE".into(), n: gen::GEN_N, f: Box::new(gen::gen_table) }, n / 4, n / 4, CfgRule::Fixed(vec![])),
+        Part::new(crate::pools::GenPool { name: "G-CODE".into(), n: gen::GEN_N, f: Box::new(gen::gen_code) }, n / 4, n / 4, CfgRule::Fixed(vec![])),
+    ];
+    let extremes = [usize::MAX / 2, usize::MAX / 3 + 1, usize::MAX / 60 + 1, 1 << 40, 1 << 20];
+    let (acc, _) = workload::run_parts(&parts, Tier::Quick, seed, |_, case, rng, acc| {
+        if case.text.len() > 100_000 {
+            return;
+        }
+        let mut cfgs = cfgs_for(rng, 2);
+        cfgs.push(Cfg::new(extremes[rng.below(extremes.len())], [0usize, 1, 2, 64][rng.below(4)], rng.chance(1, 2)));
+        cfgs.push(Cfg::new(usize::MAX / 2, 64, true));
+        run_case(case, &cfgs, acc)
+    });
+    let mut seen = std::collections::HashSet::new();
+    let mut n_v = 0;
+    for v in &acc.violations {
+        // one line per (input, failure site)
+        let site: String = v.detail.split('|').next().unwrap_or("").chars().take(120).collect();
+        if !seen.insert(util::hash64_parts(&[&v.input, &site])) {
+            continue;
+        }
+        n_v += 1;
+        if n_v <= 200 {
+            println!("CHECKED-VIOLATION {}", serde_json::to_string(&v.to_json()).unwrap());
+        }
+    }
+    println!("CHECKED-SLICE evaluations={} held={} violations={} distinct_inputs={}", acc.evaluations, acc.held, n_v, acc.distinct_inputs.len());
+    0
+}
+
+/// Run the checked-profile binary (if it was built) and fold what it saw into `acc`.
+pub fn run_checked_slice(seed: u64, thorough: bool, acc: &mut Acc) {
+    let bin = util::verif_dir().join("target/checked/tyv");
+    if !bin.exists() {
+        acc.inconclusive("checked-profile-binary-missing(overflow/debug-assertion slice skipped)");
+        return;
+    }
+    let out = Command::new(&bin)
+        .args(["checked-slice", &seed.to_string(), if thorough { "thorough" } else { "quick" }])
+        .env("TYV_INNER", "1")
+        .stdin(Stdio::null())
+        .stderr(Stdio::null())
+        .output();
+    let Ok(out) = out else {
+        acc.inconclusive("checked-slice-did-not-run");
+        return;
+    };
+    let text = String::from_utf8_lossy(&out.stdout).to_string();
+    let mut finished = false;
+    for line in text.lines() {
+        if let Some(j) = line.strip_prefix("CHECKED-VIOLATION ") {
+            if let Ok(v) = serde_json::from_str::<serde_json::Value>(j) {
+                let mut v = crate::props::violation_from_json(&v);
+                v.oracle = format!("{}(overflow checks and debug assertions on)", v.oracle);
+                v.extra = json!({"checked_profile": true});
+                acc.violations.push(v);
+            }
+        } else if let Some(rest) = line.strip_prefix("CHECKED-SLICE ") {
+            finished = true;
+            for kv in rest.split_whitespace() {
+                if let Some((k, v)) = kv.split_once('=') {
+                    if let Ok(n) = v.parse::<u64>() {
+                        acc.count(&format!("checked_profile_{}", k), n);
+                        if k == "evaluations" {
+                            acc.evaluations += n;
+                        }
+                        if k == "held" {
+                            acc.held += n;
+                        }
+                    }
+                }
+            }
+        }
+    }
+    if !finished {
+        // the slice itself died (abort): C05's business, but which input is unknown here
+        acc.inconclusive("checked-slice-ended-abnormally");
+    }
+}
+
+/// Re-evaluate one (input, cfg) in the checked-profile binary (replay of a violation found by the slice).
+pub fn checked_one(input: &str, cfg: Cfg) -> Option<bool> {
+    use std::io::Write;
+    let bin = util::verif_dir().join("target/checked/tyv");
+    if !bin.exists() {
+        return None;
+    }
+    let mut child = Command::new(&bin)
+        .args(["checked-one", &cfg.width.to_string(), &cfg.tab.to_string(), if cfg.reorder { "1" } else { "0" }])
+        .env("TYV_INNER", "1")
+        .stdin(Stdio::piped())
+        .stdout(Stdio::piped())
+        .stderr(Stdio::null())
+        .spawn()
+        .ok()?;
+    child.stdin.take()?.write_all(input.as_bytes()).ok()?;
+    let out = child.wait_with_output().ok()?;
+    let t = String::from_utf8_lossy(&out.stdout).to_string();
+    if t.contains("CHECKED-ONE violated") {
+        Some(true)
+    } else if t.contains("CHECKED-ONE held") {
+        Some(false)
+    } else {
+        // died: that is a violation of totality as well
+        Some(true)
+    }
+}
+
+pub fn checked_one_main(args: &[String]) -> i32 {
+    use std::io::Read;
+    let cfg = Cfg::new(args[0].parse().unwrap(), args[1].parse().unwrap(), args[2] == "1");
+    let mut text = String::new();
+    std::io::stdin().read_to_string(&mut text).unwrap();
+    let mut acc = Acc::new();
+    observe(&text, cfg, "recheck", &mut acc);
+    println!("CHECKED-ONE {}", if acc.violations.is_empty() { "held" } else { "violated" });
+    0
 }
